@@ -163,6 +163,16 @@ func ribCorpus() []*CaseSpec {
 			v6(5, A, "VRF1", "2001:db8::/32", 1, ""), v6(6, A, "VRF1", "2001:db8::/32", 1, "DEFAULT"), {Kind: "flush", NIs: []string{"VRF1"}}, nhg(7, D, "DEFAULT", 1, 0), nh(8, D, "DEFAULT", 1), nhg(9, D, "VRF1", 1, 0)}),
 		// instance created after the hook was registered
 		ribCase("corpus/hook-then-ni", fwd, []Step{hook, ni2, nh(1, A, "VRF1", 1), nhg(2, A, "VRF1", 1, 0, 1), v4(3, A, "VRF1", "1.0.0.0/8", 1, ""), v4(4, D, "VRF1", "1.0.0.0/8", 1, ""), {Kind: "flush", NIs: []string{"VRF1"}}}),
+		// a reference into another instance whose group is flushed away (only that instance is
+		// flushed), the entry retargeted while the group is absent, the group installed again:
+		// nothing refers to it, it can be deleted
+		ribCase("corpus/x-ni-flush-retarget-readd", fwd, []Step{ni2, nh(1, A, "DEFAULT", 1), nhg(2, A, "DEFAULT", 5, 0, 1), nh(3, A, "VRF1", 1), nhg(4, A, "VRF1", 6, 0, 1),
+			v6(5, A, "VRF1", "2001:db8::/32", 5, "DEFAULT"), mpls(6, A, "VRF1", 1048575, 5), {Kind: "flush", NIs: []string{"DEFAULT"}},
+			v6(7, R, "VRF1", "2001:db8::/32", 6, ""), mpls(8, A, "VRF1", 1048575, 6), nh(9, A, "DEFAULT", 1), nhg(10, A, "DEFAULT", 5, 0, 1), nhg(11, D, "DEFAULT", 5, 0), nh(12, D, "DEFAULT", 1)}),
+		// a rejected forward reference with forward references disallowed, then later installs:
+		// the rejected operation is gone for good
+		ribCase("corpus/nofwd-rejected-then-installs", nofwd, []Step{v4(1, A, "DEFAULT", "1.0.0.0/8", 7, ""), v6(2, A, "DEFAULT", "2001:db8::/32", 7, ""), mpls(3, A, "DEFAULT", 1048575, 7),
+			nh(4, A, "DEFAULT", 1), nhg(5, A, "DEFAULT", 7, 0, 1), nh(6, A, "DEFAULT", 2)}),
 		// held ADD and held REPLACE of one key, both waiting for one group
 		ribCase("corpus/held-add-and-replace", fwd, []Step{nh(1, A, "DEFAULT", 1), v4(2, A, "DEFAULT", "1.0.0.0/8", 1, ""), v4(3, R, "DEFAULT", "1.0.0.0/8", 1, ""), nhg(4, A, "DEFAULT", 1, 0, 1), nh(5, A, "DEFAULT", 2), nhg(6, A, "DEFAULT", 2, 0, 2)}),
 	}
